@@ -93,7 +93,6 @@ var (
 	Unix                   = time.Unix
 	UnixMicro              = time.UnixMicro
 	UnixMilli              = time.UnixMilli
-	AfterFunc              = time.AfterFunc
 	NewTimer               = time.NewTimer
 )
 
@@ -119,3 +118,19 @@ func Now() time.Time {
 }
 func Since(t time.Time) time.Duration { return Now().Sub(t) }
 func Until(t time.Time) time.Duration { return t.Sub(Now()) }
+
+// parkTimers: timers created through AfterFunc are created stopped. The code under test sees a
+// timer that simply has not fired yet; the harness thereby owns the one timer-driven transition
+// (cache eviction) instead of the wall clock, and finished executions are not kept alive by the
+// runtime's timer heap.
+var parkTimers atomic.Bool
+
+func ParkTimers(on bool) { parkTimers.Store(on) }
+
+func AfterFunc(d Duration, f func()) *Timer {
+	t := time.AfterFunc(d, f)
+	if parkTimers.Load() {
+		t.Stop()
+	}
+	return t
+}
